@@ -21,6 +21,7 @@ property text:
     peak + MEM_C0.
 """
 import random
+import time
 import sys
 import traceback
 import tracemalloc
@@ -30,6 +31,7 @@ from tlslite import errors as tlserr
 
 WORK_C, WORK_C0 = 400, 60000          # calls per received byte, slack (calls)
 MEM_C, MEM_C0 = 64, 2 * 1024 * 1024   # bytes of heap per received byte, slack (bytes)
+CPU_K, CPU_C0, CPU_C = 4, 3.0, 5e-5      # times the honest CPU time, slack (CPU seconds), CPU seconds per received byte
 
 
 class RawMsg(object):
@@ -747,6 +749,22 @@ def apply_msg_mutation(msg, mut, rng):
             body[off:off + 2] = bytes.fromhex(mut[1])
             return [RawMsg(22, hs_wrap(data[0], body))], 'hs%d:set-sigalg:%s->%s' % (data[0], old, mut[1])
         return [RawMsg(22, bytes(data))], 'hs%d:set-sigalg:none' % data[0]
+    if name == 'set-ext' and ct == 22 and len(data) >= 4:
+        # extension mut[1] of a hello carries a chosen string (c08_strings.field_body): replaced in place, else appended
+        import c08_strings
+        ebody, shown = c08_strings.field_body(mut[2], mut[3], mut[4], mut[5])
+        t, body = data[0], data[4:]
+        blk = find_ext_block(t, body)
+        desc = 'hs%d:set-ext%d:%s:%r*+%r,len=%d' % (t, mut[1], mut[2], mut[3], mut[4], mut[5])
+        if blk is None:
+            return [RawMsg(22, bytes(data))], desc + ':none'
+        a, b = blk
+        exts = split_exts(body[a:b]) if b > a else []
+        if any(e[0] == mut[1] for e in exts):
+            exts = [(e[0], ebody) if e[0] == mut[1] else e for e in exts]
+        else:
+            exts.append((mut[1], ebody))
+        return [RawMsg(22, hs_wrap(t, body[:a] + join_exts(exts)))], desc
     if name == 'set-prefix' and ct == 22 and len(data) >= 4:
         # overwrite the first bytes of the handshake body with the given value (targeted value-level mutation)
         pre = bytes.fromhex(mut[1])
@@ -1283,14 +1301,16 @@ def profile_task(key):
     """(flavour index, role) -> (baseline numbers, mutation points) of the honest run"""
     fi, role = key
     try:
+        t0 = time.process_time()
         r, collect = honest_profile(fi, role, 12345)
+        cpu = time.process_time() - t0
         def n_ext(c):
             if c[0] != 'msg' or c[2] != 22 or len(c[3]) < 4:
                 return 0
             blk = find_ext_block(c[3][0], c[3][4:])
             return len(split_exts(c[3][4:][blk[0]:blk[1]])) if blk and blk[1] > blk[0] else 0
         pts = [(c[0], c[1], c[2], (c[3][0] if c[3] else None), c[4], n_ext(c)) for c in collect]
-        return key, dict(calls=r['calls'], peak=r['peak'], outcome=r['outcome'], peer=r['peer'], bytes_in=r['bytes_in'],
+        return key, dict(calls=r['calls'], peak=r['peak'], cpu=cpu, outcome=r['outcome'], peer=r['peer'], bytes_in=r['bytes_in'],
                          problems=r['problems']), pts
     except Exception as e:  # noqa
         return key, dict(error=traceback.format_exc()), []
@@ -1376,6 +1396,7 @@ def worker(case):
     try:
         mem = case.get('mem', False)
         try:
+            t_cpu = time.process_time()
             r = with_watchdog(run_case, case, mem=mem)
         except HangTimeout:
             sys.setprofile(None)
@@ -1383,6 +1404,7 @@ def worker(case):
                 tracemalloc.stop()
             try:
                 # confirm alone, with three times the allowance, before calling it a hang
+                t_cpu = time.process_time()
                 r = with_watchdog(run_case, dict(case), mem=False, _ticks=3 * HANG_TICKS)
                 r.setdefault('notes', []).append('slow: first attempt exceeded the no-progress allowance, second attempt returned')
             except HangTimeout as e:
@@ -1396,7 +1418,19 @@ def worker(case):
                                        'run alone with %d): spinning in %s: `%s` (flavour %s)'
                                        % (HANG_SECONDS, 3 * HANG_SECONDS, fn, line, name))],
                             case={k: v for k, v in case.items() if k != 'phase_now'})
+        cpu = time.process_time() - t_cpu
         b = case['base']
+        r['cpu'] = cpu
+        if not mem and b.get('cpu') is not None:
+            # CPU time of the whole call (work done inside C code - regular expressions, big-number arithmetic - is
+            # invisible to the call count): bounded by the honest exchange of the flavour and the input length
+            limit_cpu = CPU_K * b['cpu'] + CPU_C0 + CPU_C * r['bytes_in']
+            if cpu > limit_cpu:
+                import re as _re
+                r['problems'].append(('cpu:%s:%s' % (get_flavours()[case['flavour']]['name'],
+                                                     _re.sub(r'[@(,].*$', '', r['what'] or 'post:%s' % case.get('post_extra'))),
+                                      '%.1f CPU-seconds for %d bytes received (limit %.1f = %d*honest(%.2f) + %.0f + %.0e*bytes)'
+                                      % (cpu, r['bytes_in'], limit_cpu, CPU_K, b['cpu'], CPU_C0, CPU_C)))
         limit_calls = WORK_C * r['bytes_in'] + 2 * b['calls'] + WORK_C0
         import re
         wcls = re.sub(r'[@(].*$', '', r['what'] or ('post:%s' % case.get('post_extra')))
